@@ -161,3 +161,94 @@ Proof.
   - cbn [run_block only_ok]. rewrite Ed, IH. reflexivity.
   - rewrite (Hex eq_refl) in IH. cbn [only_ok]. exact IH.
 Qed.
+
+(* ---- the validating deliverer ---- *)
+Theorem failed_deliver_v_is_noop s v h fee : sess s = None ->
+  (deliver_v s v h fee).1 = false ->
+  exists g, (deliver_v s v h fee).2 = with_gas s g.
+Proof.
+  intros Hs Hfail. unfold deliver_v in *.
+  pose proof (exec_in_session v (with_sess s (Some oempty)) oempty eq_refl) as H0.
+  destruct (exec v (with_sess s (Some oempty))) as [vok s1]. cbn [snd] in H0.
+  destruct (only_sess_gas_sess _ _ H0) as [o0 Ho0].
+  destruct vok.
+  - pose proof (exec_in_session h s1 o0 Ho0) as H1.
+    destruct (exec h s1) as [ok s2]. cbn [snd] in H1.
+    destruct (only_sess_gas_sess _ _ H1) as [o1 Ho1].
+    pose proof (exec_in_session (fee ok) s2 o1 Ho1) as H2.
+    destruct (exec (fee ok) s2) as [feeOk s3]. cbn [snd] in H2.
+    pose proof (only_sess_gas_trans _ _ _ H0 (only_sess_gas_trans _ _ _ H1 H2)) as (o & g & ->).
+    destruct (ok && feeOk); [discriminate|]. cbn [snd].
+    exists g. destruct s; simpl in *; subst; reflexivity.
+  - destruct H0 as (o & g & ->). cbn [snd]. exists g.
+    destruct s; simpl in *; subst; reflexivity.
+Qed.
+
+Theorem deliver_v_frame s v h fee : sess s = None ->
+  let s' := (deliver_v s v h fee).2 in
+  sess s' = None /\ tree s' = tree s /\ saved s' = saved s /\ version s' = version s /\
+  wlog s' = wlog s.
+Proof.
+  intros Hs. unfold deliver_v.
+  pose proof (exec_in_session v (with_sess s (Some oempty)) oempty eq_refl) as H0.
+  destruct (exec v (with_sess s (Some oempty))) as [vok s1]. cbn [snd] in H0.
+  destruct (only_sess_gas_sess _ _ H0) as [o0 Ho0].
+  destruct vok.
+  - pose proof (exec_in_session h s1 o0 Ho0) as H1.
+    destruct (exec h s1) as [ok s2]. cbn [snd] in H1.
+    destruct (only_sess_gas_sess _ _ H1) as [o1 Ho1].
+    pose proof (exec_in_session (fee ok) s2 o1 Ho1) as H2.
+    destruct (exec (fee ok) s2) as [feeOk s3]. cbn [snd] in H2.
+    pose proof (only_sess_gas_trans _ _ _ H0 (only_sess_gas_trans _ _ _ H1 H2)) as (o & g & ->).
+    destruct (ok && feeOk); simpl; auto.
+  - destruct H0 as (o & g & ->). simpl. auto.
+Qed.
+
+Lemma deliver_v_gas_None s v h fee : gas s = None -> gas (deliver_v s v h fee).2 = None.
+Proof.
+  intros Hn. unfold deliver_v.
+  pose proof (exec_gas_None v (with_sess s (Some oempty)) Hn) as H0.
+  destruct (exec v (with_sess s (Some oempty))) as [vok s1]. cbn [snd] in H0.
+  destruct vok; [|exact H0].
+  pose proof (exec_gas_None h s1 H0) as H1.
+  destruct (exec h s1) as [ok s2]. cbn [snd] in H1.
+  pose proof (exec_gas_None (fee ok) s2 H1) as H2.
+  destruct (exec (fee ok) s2) as [feeOk s3]. cbn [snd] in H2.
+  destruct (ok && feeOk); cbn [snd]; [destruct (sess s3)|]; exact H2.
+Qed.
+
+Lemma failed_deliver_v_exact s v h fee : sess s = None -> gas s = None ->
+  (deliver_v s v h fee).1 = false -> (deliver_v s v h fee).2 = s.
+Proof.
+  intros Hs Hn Hf.
+  destruct (failed_deliver_v_is_noop s v h fee Hs Hf) as [g Hg].
+  pose proof (deliver_v_gas_None s v h fee Hn) as Hn'.
+  rewrite Hg in Hn'. simpl in Hn'. subst g. rewrite Hg.
+  destruct s; simpl in *; subst; reflexivity.
+Qed.
+
+Theorem block_v_without_failed txs : forall s, sess s = None -> gas s = None ->
+  let '(res, s') := run_block_v s txs in
+  run_block_v s (drop_failed_v txs res) = (only_ok res, s').
+Proof.
+  induction txs as [|[[v h] fee] txs IH]; intros s Hs Hn; [reflexivity|].
+  cbn [run_block_v].
+  pose proof (failed_deliver_v_exact s v h fee Hs Hn) as Hex.
+  pose proof (deliver_v_frame s v h fee Hs) as (Hs1 & _).
+  pose proof (deliver_v_gas_None s v h fee Hn) as Hn1.
+  destruct (deliver_v s v h fee) as [r s1] eqn:Ed. cbn [fst snd] in *.
+  specialize (IH s1 Hs1 Hn1).
+  destruct (run_block_v s1 txs) as [rs s2]. cbn [drop_failed_v].
+  destruct r.
+  - cbn [run_block_v only_ok]. rewrite Ed, IH. reflexivity.
+  - rewrite (Hex eq_refl) in IH. cbn [only_ok]. exact IH.
+Qed.
+
+(* a transaction that fails Validate is never processed: the handler and fee programs are
+   irrelevant to the outcome *)
+Theorem invalid_never_processed s v h fee h' fee' : (exec v (with_sess s (Some oempty))).1 = false ->
+  deliver_v s v h fee = deliver_v s v h' fee'.
+Proof.
+  intros Hv. unfold deliver_v. destruct (exec v (with_sess s (Some oempty))) as [vok s1].
+  cbn [fst] in Hv. subst vok. reflexivity.
+Qed.
